@@ -232,6 +232,12 @@ func checkSort(t vkit.TB, c sortCase) {
 	fail := func(key, f string, a ...any) { t.Helper(); vkit.Fail(t, tSort, key, c, f, a...) }
 	get := func() any { return c }
 
+	// the elements themselves (handles held by a caller, the index of a
+	// dt.Set) are what the list holds: sorting rearranges them
+	before := map[*dt.Element[P]]bool{}
+	for e := l.Front(); e.Ok() && len(before) <= len(in); e = e.Next() {
+		before[e] = true
+	}
 	vkit.Watch(tSort, "C17:sort-terminates", time.Minute, get, func() {
 		if c.Algo == "SortMerge" {
 			l.SortMerge(kind.lt)
@@ -274,6 +280,14 @@ func checkSort(t vkit.TB, c sortCase) {
 	for e := l.Front(); e.Ok(); e = e.Next() {
 		if !e.In(l) {
 			fail(key+"-usable", "element %v of the sorted list does not report In(list)", e.Value())
+		}
+		if !before[e] {
+			fail(key+"-elements", "the sorted list holds an element (%v) that is not one of its previous elements: a handle taken before the sort no longer refers to the list", e.Value())
+		}
+	}
+	for e := range before {
+		if !e.In(l) || !e.Ok() {
+			fail(key+"-elements", "an element held before the sort (%v) is no longer in the list (In=%v Ok=%v)", e.Value(), e.In(l), e.Ok())
 		}
 	}
 
